@@ -34,8 +34,37 @@ HOSTILE = ['o', 'i', 'e', 'v1', 'field', 'fields', 'cls', 'tp', 'f', 'k', 'init_
            'Exception', 'é']
 TEXTS = ['Key', "it's", 'say "hi"', 'a\\b', 'new\nline', '{o}', 'x y', 'é', '#', '__tag__', 'v1', 'k-1']
 PATHS = ['a.b', 'c[0]', 'data.inner.x', 'k["x y"]', "q['it\\'s']", 'top', 'a[1].z']
+import datetime as _dt
+import enum as _enum
+import decimal as _decimal
+
+
+class _Color(_enum.Enum):
+    RED = 'r'
+    BLUE = 'b'
+
+
+class _NT(typing.NamedTuple):
+    p: int
+    q: str = 'x'
+
+
+class _TD(typing.TypedDict):
+    u: int
+
+
+@dataclasses.dataclass
+class _Inner:
+    m: int
+    n: str = 'z'
+
+
 TYPES = [('int', int), ('str', str), ('float', float), ('bool', bool), ('list[int]', list[int]), ('Optional[int]', typing.Optional[int]),
-         ('dict[str, int]', dict[str, int])]
+         ('dict[str, int]', dict[str, int]), ('Literal', typing.Literal['a', 'b', 3]), ('Union[int, str]', typing.Union[int, str]),
+         ('Enum', _Color), ('datetime', _dt.datetime), ('date', _dt.date), ('timedelta', _dt.timedelta), ('Decimal', _decimal.Decimal),
+         ('tuple[int, str]', tuple[int, str]), ('tuple[int, ...]', tuple[int, ...]), ('set[int]', set[int]), ('NamedTuple', _NT),
+         ('TypedDict', _TD), ('Inner', _Inner), ('list[Inner]', list[_Inner]), ('Optional[list[int]]', typing.Optional[list[int]]),
+         ('Union[int, None, str]', typing.Union[int, None, str]), ('Any', typing.Any), ('bytes', bytes)]
 
 
 def make_case(rng):
@@ -103,7 +132,8 @@ def build_class(case, idx, seed):
         if f['dflt'] == 'value':
             kw['default'] = base
         elif f['dflt'] == 'factory':
-            kw['default_factory'] = {'int': int, 'str': str, 'float': float, 'bool': bool, 'list[int]': list, 'dict[str, int]': dict}.get(f['tname'], list)
+            kw['default_factory'] = {'int': int, 'str': str, 'float': float, 'bool': bool, 'list[int]': list, 'dict[str, int]': dict,
+                                     'set[int]': set, 'bytes': bytes}.get(f['tname'], list)
         kind = f['decl'][0]
         if kind == 'plain':
             if not kw:
